@@ -3,17 +3,21 @@ import Goat.Lemmas.CF
 # C06 — break, continue and the branches of if / for reach the target Go specifies
 
 `compile_correct`: for every statement built from simple statements, `if`/`else`, `if` without
-else, `for` with and without condition, `break` and `continue` — at **every nesting depth** — and
+else, `for` with and without condition, `switch` with any number of clauses, `break` and `continue` — at **every nesting depth** — and
 for arbitrary leaf codes and leaf semantics, running the code that the compile schemes emit
 (placeholders rewritten by the enclosing loop exactly as compiler.go does, relative jumps executed
 as do.go does) follows Go's big-step semantics: it ends just past the statement's code, or at the
 enclosing loop's break / continue target, with the final state Go prescribes.
 
-PARTIAL: `switch` (chunks assembled back to front, BREAK rewritten per clause and in the default
-clause), `range`, `return` and the staged peephole passes are not in this theorem yet; they are
-covered by the instruction-for-instruction correspondence of the emitted jump skeleton, by C07's
-verifier on all emitted code, and by Go-toolchain runs of nests enumerated exhaustively for small
-depths.
+`switch` is in the theorem too: a clause chain `case c₁: A₁ … default: D` (chunks chained by
+JUMPFALSE / JUMP, BREAK rewritten per clause to the end of the switch and in the default clause to
+its own end, CONTINUE left for the enclosing loop, `rw_rwB`): a `break` in any clause leaves the
+switch and nothing else, a `continue` reaches the enclosing loop's continue target.
+
+PARTIAL: `range`, `return`, tagged switches' hidden tag variable and the staged peephole passes are
+not in this theorem; they are covered by the instruction-for-instruction correspondence of the
+emitted jump skeleton, by C07's verifier on all emitted code, and by Go-toolchain runs of nests
+enumerated exhaustively for small depths.
 -/
 namespace Goat.Props.C06
 open Goat.CF Goat.Peephole
@@ -46,6 +50,23 @@ theorem rw_ift (ok : LeavesOK M L) (db dc : Nat) (c : Nat) (a : Stmt) :
   have e : compile L (.ift c a) = L.cnd c ++ (jump "JUMPFALSE" (compile L a).length :: compile L a) := by
     simp [compile]
   rw [e, rw_append, rw_noPH _ _ _ (ok.cnd_noPH c), rw_cons_noPH _ _ _ _ (jump_noPH _ _ (by decide))]
+
+theorem rw_swd (db dc : Nat) (d : Stmt) :
+    rw db dc (compile L (.swd d)) = rw 0 dc (compile L d) := by
+  simp only [compile, rw_rwB]
+
+theorem rw_swc (ok : LeavesOK M L) (db dc : Nat) (c : Nat) (a r : Stmt) :
+    rw db dc (compile L (.swc c a r)) =
+      L.cnd c ++ (jump "JUMPFALSE" ((compile L a).length + 1) ::
+        (rw ((compile L r).length + 1) (dc + ((compile L r).length + 1)) (compile L a) ++
+          (jump "JUMP" (compile L r).length :: rw db dc (compile L r)))) := by
+  have e : compile L (.swc c a r) =
+      L.cnd c ++ (jump "JUMPFALSE" ((compile L a).length + 1) ::
+        (rwB ((compile L r).length + 1) (compile L a) ++ (jump "JUMP" (compile L r).length :: compile L r))) := by
+    simp [compile]
+  rw [e, rw_append, rw_noPH _ _ _ (ok.cnd_noPH c), rw_cons_noPH _ _ _ _ (jump_noPH _ _ (by decide)),
+    rw_append, rw_cons_noPH _ _ _ _ (jump_noPH _ _ (by decide)), rw_rwB]
+  simp only [List.length_cons, rw_length]
 
 theorem compile_correct (ok : LeavesOK M L) {s : Stmt} {st : σ} {o : Out} {st' : σ} (h : Exec M s st o st') :
     ∀ (C : List Instr) (pc db dc : Nat) (stk : List Bool), CodeAt C pc (rw db dc (compile L s)) →
@@ -275,6 +296,81 @@ theorem compile_correct (ok : LeavesOK M L) {s : Stmt} {st : σ} {o : Out} {st' 
     rw [show pc + ((compile L b).length + (L.act p).length + (0 + 1))
           = pc + (compile L b).length + (1 + (L.act p).length) by omega]
     exact ⟨h3, h3⟩
+
+  | @swdN d s o s' _ hne ihd =>
+    intro C pc db dc stk hc
+    rw [rw_swd] at hc
+    have h3 := (ihd C pc 0 dc stk hc).1
+    simp only [compile, entry2, rwB_length]
+    have : offs 0 dc o = offs db dc o := by cases o <;> simp [offs] at hne ⊢
+    rw [this] at h3
+    exact ⟨h3, h3⟩
+  | @swdB d s s' _ ihd =>
+    intro C pc db dc stk hc
+    rw [rw_swd] at hc
+    have h3 := (ihd C pc 0 dc stk hc).1
+    simp only [compile, entry2, rwB_length, offs, Nat.add_zero] at h3 ⊢
+    exact ⟨h3, h3⟩
+  | @swcT c a r s o s' hcnd _ hne iha =>
+    intro C pc db dc stk hc
+    rw [rw_swc ok] at hc
+    have s1 := run_cnd ok (stk := stk) (s := s) hc.left
+    rw [hcnd] at s1
+    have hJ := hc.right
+    have s2 := Step.jfT (M := M) (L := L) (stk := stk) (s := M.ceff c s) hJ.head rfl
+    have hA := hJ.tail.left
+    have h3 := (iha C _ _ _ stk hA).1
+    have hJ2 := hJ.tail.right
+    simp only [rw_length] at hJ2
+    have pre := Star.trans M L s1 (Star.step s2 h3)
+    simp only [compile, entry2, List.length_append, List.length_cons, List.length_nil, rwB_length]
+    cases o with
+    | normal =>
+      have s4 : Step M L C (pc + (L.cnd c).length + 1 + (compile L a).length, stk, s')
+          (pc + (L.cnd c).length + 1 + (compile L a).length + 1 + (compile L r).length, stk, s') :=
+        Step.jmp hJ2.head rfl (by simp [jump]; omega)
+      simp only [offs, Nat.add_zero] at pre ⊢
+      have := Star.trans M L pre (Star.one M L s4)
+      rw [show pc + ((L.cnd c).length + (0 + 1) + (compile L a).length + (0 + 1) + (compile L r).length)
+            = pc + (L.cnd c).length + 1 + (compile L a).length + 1 + (compile L r).length by omega]
+      exact ⟨this, this⟩
+    | brk => exact absurd rfl hne
+    | cont =>
+      simp only [offs] at pre ⊢
+      rw [show pc + ((L.cnd c).length + (0 + 1) + (compile L a).length + (0 + 1) + (compile L r).length) + dc
+            = pc + (L.cnd c).length + 1 + (compile L a).length + (dc + ((compile L r).length + 1)) by omega]
+      exact ⟨pre, pre⟩
+  | @swcB c a r s s' hcnd _ iha =>
+    intro C pc db dc stk hc
+    rw [rw_swc ok] at hc
+    have s1 := run_cnd ok (stk := stk) (s := s) hc.left
+    rw [hcnd] at s1
+    have hJ := hc.right
+    have s2 := Step.jfT (M := M) (L := L) (stk := stk) (s := M.ceff c s) hJ.head rfl
+    have hA := hJ.tail.left
+    have h3 := (iha C _ _ _ stk hA).1
+    have pre := Star.trans M L s1 (Star.step s2 h3)
+    simp only [compile, entry2, List.length_append, List.length_cons, List.length_nil, rwB_length, offs, Nat.add_zero] at pre ⊢
+    rw [show pc + ((L.cnd c).length + (0 + 1) + (compile L a).length + (0 + 1) + (compile L r).length)
+          = pc + (L.cnd c).length + 1 + (compile L a).length + ((compile L r).length + 1) by omega]
+    exact ⟨pre, pre⟩
+  | @swcF c a r s o s' hcnd _ ihr =>
+    intro C pc db dc stk hc
+    rw [rw_swc ok] at hc
+    have s1 := run_cnd ok (stk := stk) (s := s) hc.left
+    rw [hcnd] at s1
+    have hJ := hc.right
+    have hR := hJ.tail.right.tail
+    simp only [rw_length] at hR
+    have s2 : Step M L C (pc + (L.cnd c).length, false :: stk, M.ceff c s)
+        (pc + (L.cnd c).length + 1 + (compile L a).length + 1, stk, M.ceff c s) :=
+      Step.jfF hJ.head rfl (by simp [jump]; omega)
+    have h3 := (ihr C _ db dc stk hR).1
+    have pre := Star.trans M L s1 (Star.step s2 h3)
+    simp only [compile, entry2, List.length_append, List.length_cons, List.length_nil, rwB_length]
+    rw [show pc + ((L.cnd c).length + (0 + 1) + (compile L a).length + (0 + 1) + (compile L r).length) + offs db dc o
+          = pc + (L.cnd c).length + 1 + (compile L a).length + 1 + (compile L r).length + offs db dc o by omega]
+    exact ⟨pre, pre⟩
 
 /-- **C06 (core).** A whole function body (no enclosing loop: a stray `break`/`continue` does not
     occur in valid Go) runs from its first instruction to just past its last one and produces the
